@@ -249,7 +249,12 @@ pub fn run_c04(cx: &Cx) -> PropResult {
             return;
         }
         let strat = ser_only_tv_strategy(ValCfg::default());
-        drive(crate::run::tag_seed(derive_seed(cx.seed, cx.prop, shard as u64, 2), 2), &strat, per_shard / 5, acc, &|c: &TV| to_json(c), &mut |c, a, r| check_c04(c, a, r));
+        if drive(crate::run::tag_seed(derive_seed(cx.seed, cx.prop, shard as u64, 2), 2), &strat, per_shard / 5, acc, &|c: &TV| to_json(c), &mut |c, a, r| check_c04(c, a, r)) {
+            return;
+        }
+        // the public serialize_iterator: which of the two layouts is written depends on the size hint alone
+        let strat = iter_case_strategy();
+        drive(crate::run::tag_seed(derive_seed(cx.seed, cx.prop, shard as u64, 3), 3), &strat, per_shard / 5, acc, &|c: &IterCase| to_json(&json!({"Iter": c})), &mut |c, a, r| check_c04_iter(c, a, r));
     });
     let mut acc = acc;
     reduce_violations(&mut acc, &|c, a, r| check_c04(c, a, r));
@@ -261,13 +266,95 @@ pub fn run_c04(cx: &Cx) -> PropResult {
     let mut r = PropResult::new(
         acc,
         "exploration",
-        "anchors first: the reference decoder must read the Scala-written golden/dataset1.bin completely (242 540 bytes, unknown-length list, evolution header, sorted-constructor enum) to the values spelled out in the repository's golden test and encode the pinned 14-byte Point vector (else exit 2: broken oracle), and desert must read the golden file to the same value. Then cases = (type expression T, value v, form choices). Encode direction: serialize(v) must equal the independent reference encoder byte for byte (built-in types, derived declarations interpreted and compiled, and the serialize-only shapes str, [T], &T, Rc<str>, Rc<[T]>). Decode direction: the reference encoder renders v with every sequence node independently in known-length or unknown-length form (a form the Rust writer never emits); deserialize must return v. Non-trivial = encoding of >= 2 bytes; distinct by hash of (T, v, forms).",
+        "anchors first: the reference decoder must read the Scala-written golden/dataset1.bin completely (242 540 bytes, unknown-length list, evolution header, sorted-constructor enum) to the values spelled out in the repository's golden test and encode the pinned 14-byte Point vector (else exit 2: broken oracle), and desert must read the golden file to the same value. Then cases = (type expression T, value v, form choices). Encode direction: serialize(v) must equal the independent reference encoder byte for byte (built-in types, derived declarations interpreted and compiled, and the serialize-only shapes str, [T], &T, Rc<str>, Rc<[T]>; the public serialize_iterator under exact, bounded-inexact and unbounded size hints must write the known-length layout only for an exact hint). Decode direction: the reference encoder renders v with every sequence node independently in known-length or unknown-length form (a form the Rust writer never emits); deserialize must return v. Non-trivial = encoding of >= 2 bytes; distinct by hash of (T, v, forms).",
     );
     r.assumptions = vec!["the reference codec (vmodel::refcodec) is the statement of the format; it shares no code with desert".into()];
     r
 }
 
+/// a sequence written through the public `serialize_iterator` with a given size hint
+#[derive(Debug, Clone, Serialize, Deserialize)]
+pub struct IterCase {
+    pub elem: Ty,
+    pub xs: Vec<Val>,
+    pub lo: usize,
+    pub hi: Option<usize>,
+}
+
+fn iter_case_strategy() -> BoxedStrategy<IterCase> {
+    // (hash containers iterate in a per-instance order the reference cannot know: not as elements here)
+    (vmodel::gen::any_ty(1).prop_filter("no hash containers", |t| !t.any(&|x| matches!(x, Ty::HashSet(_) | Ty::HashMap(..)))), 0u8..6)
+        .prop_flat_map(|(elem, kind)| {
+            let xs = val_strategy(&Ty::Vec(std::sync::Arc::new(elem.clone())), ValCfg { max_len: 6, long: false, ..ValCfg::default() });
+            (Just(elem), xs, Just(kind), any::<u8>())
+        })
+        .prop_map(|(elem, xs, kind, d)| {
+            let xs = match xs {
+                Val::Seq(x) => x,
+                _ => vec![],
+            };
+            let n = xs.len();
+            let d = d as usize % 5;
+            // what iterator adaptors report: exact; filter (0, Some(n + d)); take_while / skip_while; unbounded; chain
+            let (lo, hi) = match kind {
+                0 | 1 => (n, Some(n)),
+                2 => (0, Some(n + d)),
+                3 => (n.saturating_sub(d), Some(n + 1 + d)),
+                4 => (0, None),
+                _ => (n, None),
+            };
+            IterCase { elem, xs, lo, hi }
+        })
+        .boxed()
+}
+
+pub fn check_c04_iter(c: &IterCase, acc: &mut Acc, record: bool) -> Verdict {
+    let exact = c.hi == Some(c.lo);
+    let list_ty = Ty::Vec(std::sync::Arc::new(c.elem.clone()));
+    let (got, written) = vcat::encode_iter_hint_written(&c.elem, &c.xs, c.lo, c.hi);
+    let val = Val::Seq(written);
+    // the byte-array form belongs to the u8 containers, not to serialize_iterator: elements are written one by one
+    let mut forms = ScriptForms::new(vec![!exact]);
+    let want = if c.elem == Ty::U8 {
+        let mut f = Vec::new();
+        if exact {
+            vmodel::refcodec::var_i32(c.xs.len() as i32, &mut f);
+            for x in &c.xs {
+                f.push(match x { Val::Int(i) => *i as u8, _ => 0 });
+            }
+        } else {
+            vmodel::refcodec::var_i32(-1, &mut f);
+            for x in &c.xs {
+                f.push(1);
+                f.push(match x { Val::Int(i) => *i as u8, _ => 0 });
+            }
+            f.push(0);
+        }
+        f
+    } else {
+        match ref_encode_forms(&list_ty, &val, &mut forms) {
+            Ok(f) => f.bytes,
+            Err(_) => return Verdict::Skip,
+        }
+    };
+    if record {
+        let class = format!("serialize_iterator, size hint {}", if exact { "exact" } else if c.hi.is_some() { "bounded, inexact" } else { "unbounded" });
+        acc.case(&class, hash_json(c), !c.xs.is_empty());
+        if acc.wants_sample(&class) {
+            acc.sample(&class, json!({"element": c.elem.render(), "items": c.xs.len(), "size_hint": format!("({}, {:?})", c.lo, c.hi), "expected_hex": hex(&want[..want.len().min(48)])}));
+        }
+    }
+    match got {
+        Ok(b) if b == want => Verdict::Pass,
+        other => Verdict::Fail(format!("serialize_iterator over {} items of {} with size hint ({}, {:?}) wrote {:?}; the {} layout is {}", c.xs.len(), c.elem.render(), c.lo, c.hi, other.map(|b| hex(&b)), if exact { "known-length" } else { "unknown-length" }, hex(&want))),
+    }
+}
+
 pub fn replay_c04(case: &Value) -> Verdict {
+    if let Some(i) = case.get("Iter") {
+        let c: IterCase = serde_json::from_value(i.clone()).expect("replay case");
+        return check_c04_iter(&c, &mut Acc::new(), false);
+    }
     if case.get("anchor").is_some() {
         return match anchors() {
             Ok(None) => Verdict::Pass,
